@@ -341,6 +341,11 @@ func join(a, b context, node parse.Node, nodeName string) context {
 		return b
 	}
 
+	// A name is open, or was split, after the branch node if it is in any branch.
+	a.nameOpen = a.nameOpen || b.nameOpen
+	a.element.split = a.element.split || b.element.split
+	a.element.attrSplit = a.element.attrSplit || b.element.attrSplit
+	a.attr.split = a.attr.split || b.attr.split
 	// Accumulate the result of context-joining elements and attributes in a, since the
 	// contents of a are always returned.
 	a.element.names = joinNames(a.element.name, b.element.name, a.element.names, b.element.names)
@@ -420,7 +425,11 @@ func (e *escaper) escapeBranch(c context, n *parse.BranchNode, nodeName string) 
 		// The "true" branch of a "range" node can execute multiple times.
 		// We check that executing n.List once results in the same context
 		// as executing n.List twice.
-		c1, _ := e.escapeListConditionally(c0, n.List, nil)
+		// (A loop body that is itself an attribute name is accepted: the name it repeats
+		// is not treated as split.)
+		r := c0
+		r.nameOpen = false
+		c1, _ := e.escapeListConditionally(r, n.List, nil)
 		c0 = join(c0, c1, n, nodeName)
 		if c0.state == stateError {
 			// Make clear that this is a problem on loop re-entry
@@ -507,6 +516,12 @@ func mangle(c context, templateName string) string {
 	}
 	if c.element.name != "" {
 		s += "_" + c.element.String()
+	}
+	if c.nameOpen {
+		s += "_nameOpen"
+	}
+	if c.element.split || c.element.attrSplit || c.attr.split {
+		s += "_nameSplit"
 	}
 	return s
 }
@@ -633,6 +648,17 @@ func (e *escaper) escapeText(c context, n *parse.TextNode) context {
 			err:   errorf(ErrCSPCompatibility, n, 0, `"javascript:" URI disallowed for CSP compatibility`),
 		}
 	}
+	if c.nameOpen && continuesName(c.state, s[0]) {
+		// The text before the preceding template node ended inside a name, as in
+		// `<s{{if .C}}cript{{end}}>` or `<a title{{if .C}} {{end}}href="x">`: a browser may see
+		// one longer name where the transition functions see two. The markup is kept as
+		// written, but actions that depend on the name are refused (sanitizerForContext).
+		if c.state == stateTag {
+			c.element.split = true
+		} else {
+			c.attr.split, c.element.attrSplit = true, true
+		}
+	}
 	for i != len(s) {
 		if e.ns.cspCompatible && strings.HasPrefix(c.attr.name, "on") {
 			return context{
@@ -694,7 +720,22 @@ func (e *escaper) escapeText(c context, n *parse.TextNode) context {
 		}
 		e.editTextNode(n, b.Bytes())
 	}
+	// In stateTag the text ends with a letter or digit only directly after the tag name.
+	c.nameOpen = c.state == stateAttrName || c.state == stateTag && asciiAlphaNum(s[len(s)-1])
 	return c
+}
+
+// continuesName reports whether the byte b, found in the given state directly after
+// the characters of a name, is a further character of that name for an HTML parser.
+func continuesName(st state, b byte) bool {
+	switch b {
+	case ' ', '\t', '\n', '\f', '\r', '/', '>':
+		return false
+	case '=':
+		// Ends an attribute name, but not a tag name.
+		return st == stateTag
+	}
+	return st == stateTag || st == stateAttrName
 }
 
 // contextAfterText starts in context c, consumes some tokens from the front of
